@@ -93,6 +93,10 @@ class Gen08:
         kind = kw.get("kind", r.choice(["values"] * 5 + ["error", "panic"]))
         behave = kw.get("behave", r.choice(["echo", "script"]))
         err = kw.get("err", True if kind == "error" else r.random() < 0.75)
+        # the last result may be the interface type error or a concrete type implementing error (pointer to struct,
+        # named slice, named string): either way it is the call's error slot (makeMethod: t.Out(n-1).Implements(errorType)),
+        # and its zero value means "no error" (Execute: IsZero)
+        err_type = kw.get("err_type", r.choice(["", "", "", "ptrstruct", "slice", "string"])) if err else ""
         ctx_param = kw.get("ctx", r.random() < 0.35)
         if behave == "echo" and not missing:
             nres = kw.get("nres", r.choice([0, 1, 1, 2, 3]))
@@ -112,6 +116,8 @@ class Gen08:
         panic_type = kw.get("panic_type", r.choice(["string", "string", "error", "int"]))
         if panic_type == "int":
             msg = str(r.choice([0, 42, -7])).encode()
+        if err_type == "string" and kind == "error" and not msg:
+            msg = b"e"          # the zero value of a value-typed error slot (CodeErr("")) means "no error"
         # naming
         ns = kw.get("ns", r.choice([b"", b"", b"user", b"ns1"]) if via == "proxy" else b"")
         path = [r.choice(OUTERS)] * (1 if r.random() < 0.3 else 0) + [r.choice(FIELDS)]
@@ -123,7 +129,8 @@ class Gen08:
         reg_name = kw.get("reg_name", c07.respell(r, wire))
         co, so = self.cg.options()
         methods = [{"id": 1, "name": hx(reg_name), "missing": False, "ctx": ctx_param, "params": params,
-                    "variadic": velem is not None, "velem": velem, "results": results, "err": err, "behave": behave}]
+                    "variadic": velem is not None, "velem": velem, "results": results, "err": err, "err_type": err_type,
+                    "behave": behave}]
         if missing:
             methods = [{"id": 9, "name": hx(b"*"), "missing": True, "ctx": r.random() < 0.5, "params": [], "variadic": False,
                         "velem": None, "results": [], "err": True, "behave": "script"},
@@ -173,6 +180,19 @@ class Gen08:
                 "rtypes": rtypes, "rt_default": rt_default}
 
 
+def make_group(rng, g, transport, pool):
+    nf = rng.choice([2, 3, 4])
+    n = rng.choice([2, 3, 4, 6, 8])
+    calls = []
+    for i in range(n):
+        calls.append({"f": (i % nf) + 1, "x": i + 1 + 10 * rng.randint(0, 9), "via": rng.choice(["proxy", "invoke"]),
+                      "s": hx(rng.choice([b"a", b"", b"hello", "中".encode(), b"x" * 20]))})
+    rng.shuffle(calls)
+    co, so = g.cg.options()
+    return {"family": "concurrent", "group": True, "transport": transport, "pool": pool, "copts": co, "sopts": so,
+            "nfuncs": nf, "calls": calls}
+
+
 def gen_cases(ctx, reg):
     g = Gen08(ctx, reg)
     quick = ctx.tier == "quick"
@@ -194,6 +214,21 @@ def gen_cases(ctx, reg):
             cases.append(g.make("error-messages", t, kind="error", msg=msg, missing=False, err=True))
         for arity in ("fewer", "more"):
             cases.append(g.make("arity-" + arity, t, via="invoke", arity=arity, missing=False, variadic=False, nparams=2))
+        # result signatures: the error slot is any last result whose type implements error
+        for et in ("", "ptrstruct", "slice", "string"):
+            for kind in ("values", "error"):
+                for via in ("invoke", "proxy"):
+                    for nres in (0, 1, 2):
+                        cases.append(g.make("error-result-type", t, via=via, kind=kind, err=True, err_type=et, nres=nres,
+                                            behave="script", missing=False, rmode="match"))
+        # concurrent calls to different functions through one client
+        for pool in (False, True):
+            for _ in range(3 if quick else 10):
+                cases.append(make_group(ctx.rng, g, t, pool))
+    # many calls one after the other on ONE udp connection: the 15-bit request index wraps after 32767 calls
+    co, so = g.cg.options()
+    cases.append({"family": "long-sequence", "group": True, "transport": "udp", "pool": False, "copts": co, "sopts": so,
+                  "nfuncs": 1, "calls": [], "seq": 33000})
     for i, c in enumerate(cases):
         c["id"] = i + 1
     return cases
@@ -255,6 +290,78 @@ def model_line(c, o):
     parts.append("(stack x%s)" % STACK.hex())
     parts.append("(decerr x%s)" % first_decode_error(o).encode("utf-8", "surrogateescape").hex())
     return "(c08 " + " ".join(parts) + ")"
+
+
+def group_model_lines(c):
+    """one model run per call of a concurrent group: the model handles every request in its own context"""
+    c07.TYPES[0] = [T("int"), T("string")]
+    lines = []
+    names = ["conc_f%d" % k for k in range(1, c["nfuncs"] + 1)]
+    lower = " ".join("(x%s x%s)" % (hx(n.encode()), hx(n.encode())) for n in names + ["*", "~"])
+    ms = " ".join("(%d x%s 0 0 (params (n 0) (n 1)) (novelem) (results (n 1) (n 0)) 1 conc)" % (k + 1, hx(n.encode()))
+                  for k, n in enumerate(names))
+    for call in c["calls"]:
+        k, x, sh = call["f"], call["x"], call["s"]
+        text, num = conc_result(k, x, bytes.fromhex(sh))
+        parts = ["(copts %s)" % c07.opts_sx(c["copts"], False), "(sopts %s)" % c07.opts_sx(c["sopts"], True), "(heap)",
+                 "(lower %s)" % lower, "(methods %s)" % ms]
+        if call["via"] == "proxy":
+            parts += ["(via proxy)", "(proxy (path x%s) (tag x%s) (ns ) (ctx 0) (variadic 0) (nfixed 2) (err 1))"
+                      % (hx(("F%d" % k).encode()), hx(names[k - 1].encode()))]
+        else:
+            parts += ["(via invoke)", "(call x%s)" % hx(names[k - 1].encode())]
+        parts += ["(args (int KInt %d) (str x%s))" % (x, sh), "(hdrs )",
+                  "(orargs ((n 0) (int KInt %d)) ((n 1) (str x%s)))" % (x, sh), "(orhdrs %s)" % ("(x%s (bool 1))" % hx(b"simple") if c["copts"]["simple"] else ""),
+                  "(result (values ))", "(rtypes (n 1) (n 0))",
+                  "(orres ((n 1) (str x%s)) ((n 0) (int KInt %d)))" % (text.hex(), num),
+                  "(zeros ((n 1) (str x)) ((n 0) (int KInt 0)))", "(stack x%s)" % STACK.hex(), "(decerr x)"]
+        lines.append("(c08 " + " ".join(parts) + ")")
+    return lines
+
+
+def conc_result(k, x, s):
+    """what function k of the concurrent family returns for (x, s): computed here, independently of the harness"""
+    return b"f%d(%d," % (k, x) + s + b")", x * 100 + k
+
+
+def group_verdict(c, o, models):
+    """returns (property failures, model disagreements) for a concurrent group"""
+    fails, dis = [], []
+    if c.get("seq"):
+        if o.get("seq_bad"):
+            fails.append(("sequential-call-on-one-connection-fails", "%s after %d good calls on one %s connection"
+                          % (o["seq_bad"][:160], o.get("seq_ok", 0), c["transport"])))
+        elif o.get("seq_runs") != c["seq"]:
+            fails.append(("sequential-calls-entered-function-wrong-number-of-times",
+                          "%d calls, %d entries into the function" % (c["seq"], o.get("seq_runs", 0))))
+        return fails, dis
+    want_log = sorted((call["f"], call["x"], call["s"]) for call in c["calls"])
+    got_log = sorted((e["f"], e["x"], e["s"]) for e in (o.get("log") or []))
+    for i, (call, oc) in enumerate(zip(c["calls"], o["calls"])):
+        text, num = conc_result(call["f"], call["x"], bytes.fromhex(call["s"]))
+        where = "call %d of %d in flight together on one %s client%s: conc_f%d(%d, %r) via %s" % (
+            i + 1, len(c["calls"]), c["transport"], " (worker pool)" if c["pool"] else "", call["f"], call["x"],
+            bytes.fromhex(call["s"]).decode("utf-8", "replace"), call["via"])
+        if oc.get("panic"):
+            fails.append(("concurrent-call-panics", where + " panicked: " + oc["panic"][:120]))
+        elif oc.get("failed"):
+            fails.append(("concurrent-call-fails", where + " failed: " + oc.get("err", "")[:120]))
+        elif oc["got_s"] != text.hex() or oc["got_n"] != num:
+            fails.append(("concurrent-call-returns-another-functions-result",
+                          where + " returned (%r, %d); its own function returns (%r, %d)"
+                          % (bytes.fromhex(oc["got_s"]).decode("utf-8", "replace"), oc["got_n"], text.decode("utf-8", "replace"), num)))
+        m = models[i]
+        want_vals = "[(str x%s);(int KInt %d)]" % (text.hex(), num)
+        ok_model = (m.get("r") == "res" or (m.get("p") == "ret" and m.get("perr") == "none")) and m.get("vals") == want_vals \
+            and m.get("log") == "[%d:[(int KInt %d);(str x%s)]]" % (call["f"], call["x"], call["s"])
+        if not ok_model:
+            dis.append("model of " + where + ": " + str({k: v[:120] for k, v in m.items() if k != "_raw"}))
+    if got_log != want_log:
+        extra = [e for e in got_log if e not in want_log]
+        missing = [e for e in want_log if e not in got_log]
+        fails.append(("concurrent-call-enters-wrong-function",
+                      "functions entered (function, x, s): unexpected %s, missing %s" % (extra[:3], missing[:3])))
+    return fails, dis
 
 
 def rtypes_of(c):
@@ -448,6 +555,8 @@ def compare(c, o, m):
         dis.append("invocation log: model %s go %s" % (m.get("log", "")[:300], fmt_log(o.get("log") or [])[:300]))
     if any(x.get("err") for x in (o.get("or_res") or [])):
         return dis      # a result the plain io round trip cannot carry into the declared type either: C01/C06's business
+    if re.search(r"\(bigfloat x(2b|2d)496e66\)", m.get("log", "") + " ".join(x.get("v", "") for x in (o.get("or_res") or []))):
+        return dis      # an infinite big.Float (a float Inf decoded under RealType=BigFloat) is outside the encoder model (Enc.GBigFloat)
     got_vals = c07.fmt_vals(rem.get("results") or [])
     debug_panic = c["sopts"]["debug"] and c["res"]["kind"] == "panic"
     if c["via"] == "invoke":
@@ -521,13 +630,20 @@ def run_cases(ctx, cases):
         obs_by_id.update(ob)
         crashes += cr
     done = [c for c in cases if c["id"] in obs_by_id and not obs_by_id[c["id"]].get("build_err") and not obs_by_id[c["id"]].get("env")]
-    lines = [model_line(c, obs_by_id[c["id"]]) for c in done]
+    lines, owner = [], []
+    for c in done:
+        ls = (group_model_lines(c) if not c.get("seq") else []) if c.get("group") else [model_line(c, obs_by_id[c["id"]])]
+        lines += ls
+        owner += [c["id"]] * len(ls)
     outs = hv.run_model("c08", lines) if lines else []
     models = {}
-    for c, out in zip(done, outs):
+    for cid, out in zip(owner, outs):
         d = c07.parse_kv(out)
         d["_raw"] = out if out.startswith("MODEL-ERROR") else ""
-        models[c["id"]] = d
+        models.setdefault(cid, []).append(d)
+    for c in done:
+        if not c.get("group"):
+            models[c["id"]] = models[c["id"]][0]
     return obs_by_id, models, crashes, done
 
 
@@ -562,7 +678,25 @@ def run(ctx):
                 ctx.note("build_err_example_%d" % ctx.cov["generator_build_errors"], o["build_err"][:200])
     validated, disagreements, pure = 0, [], []
     for c in done:
-        o, m = obs_by_id[c["id"]], models[c["id"]]
+        o, m = obs_by_id[c["id"]], models.get(c["id"], [])
+        if c.get("group"):
+            ctx.count_case(json.dumps(c, sort_keys=True), True)
+            ctx.bump("cases_by_transport", c["transport"] + ("+pool" if c["pool"] else ""))
+            if c.get("seq"):
+                ctx.note("sequential_calls_on_one_%s_connection" % c["transport"], o.get("seq_ok", 0))
+            else:
+                ctx.bump("concurrent_groups", "overlapping" if o.get("overlap", 0) == len(c["calls"]) else "not-overlapping")
+                ctx.bump("concurrent_calls", None, len(c["calls"]))
+            fails, dis = group_verdict(c, o, m)
+            for key, what in fails:
+                ctx.report("c08:" + key, what, {"case": c, "observed": o, "failing_input": True})
+            if dis:
+                disagreements.append((c, o, {}, dis))
+                if not fails:
+                    pure.append((c, o, {}, dis))
+            elif not fails:
+                validated += 1
+            continue
         canon = json.dumps({k: c[k] for k in ("transport", "pool", "copts", "sopts", "methods", "via", "call", "proxy", "args", "hdrs", "res", "rtypes")}, sort_keys=True)
         nontrivial = bool(c["args"]) or c["res"]["kind"] != "values" or bool(c["res"]["values"])
         ctx.count_case(canon, nontrivial)
